@@ -167,11 +167,20 @@ int main(int argc, char* const* argv)
     if (ca.m.count('x') + ca.m.count('i') == 1) abort("provide either both --txin and --tx, or neither");
     if (ca.m.count('x')) {
         have_txs = true;
-        if (!instance.parse_transaction(ca.m['x'].c_str(), false)) {
-            abort("failed to parse transaction");
+        // a truncated or corrupted encoding makes the deserialiser throw: a diagnostic, as in btcdeb, not a crash
+        try {
+            if (!instance.parse_transaction(ca.m['x'].c_str(), false)) {
+                abort("failed to parse transaction");
+            }
+        } catch (std::exception const& ex) {
+            abort("error parsing spending (--tx) transaction: %s", ex.what());
         }
-        if (!instance.parse_input_transaction(ca.m['i'].c_str())) {
-            abort("failed to parse input transaction");
+        try {
+            if (!instance.parse_input_transaction(ca.m['i'].c_str())) {
+                abort("failed to parse input transaction");
+            }
+        } catch (std::exception const& ex) {
+            abort("error parsing input (--txin) transaction: %s", ex.what());
         }
         btc_logf("targeting transaction vin at index #%lld\n", instance.txin_index);
     }
